@@ -79,14 +79,21 @@ FIELDS = {
     "t_sample": ((0, 1, 0), lambda q: RDScript(mk_system(0, 0, 0), UnitArray([0.0, 1.0], q.units))),
     "state": ((0, 0, 1), lambda q: RDSystem(mk_network(0, 0), mk_grid(0, 2, 1, 1, 0, 0, 0), state=UnitArray([1.0] * 6, q.units))),
     "set_state": ((0, 0, 1), lambda q: mk_system(0, 0, 0).set_state(0, 0, q)),
+    # array fields given as a plain LIST holding a quantity (with numbers and a correct quantity around it)
+    "t_sample_list": ((0, 1, 0), lambda q: RDScript(mk_system(0, 0, 0), [UnitValue(0.0, "s"), q, 1.0e9])),
+    "state_list": ((0, 0, 1), lambda q: RDSystem(mk_network(0, 0), mk_grid(0, 2, 1, 1, 0, 0, 0), state=[1.0, q, 0, UnitValue(2, "molecule"), 0, 0])),
+    "unitarray_list": ((2, -1, 0), lambda q: UnitArray([q, 1.0, UnitValue(1.0, Units(SYS["A"], UnitsDimensions(2, -1, 0)))], Units(SYS["A"], UnitsDimensions(2, -1, 0)))),
 }
 
 
 def wrong_dimension_rejected(field, s, t, q):
     want, build = FIELDS[field]
-    if (s, t, q) == want:
-        return not raises(lambda: build(UnitValue(1.5, Units(SYS["B"], UnitsDimensions(s, t, q)))))
-    return raises(lambda: build(UnitValue(1.5, Units(SYS["B"], UnitsDimensions(s, t, q)))))
+    # the quantity written in a foreign units system, in the default one (the receiving object's own: no scaling needed) and in an SI-like one
+    for k in ("B", "A", "G"):
+        v = UnitValue(1.5, Units(SYS[k], UnitsDimensions(s, t, q)))
+        if raises(lambda: build(v)) != ((s, t, q) != want):
+            return False
+    return True
 
 
 def bad_symbol_rejected(kind, sym):
